@@ -309,7 +309,7 @@ func (c13) Run(t *testing.T, tape *core.Tape, rcx *RunCtx) *core.Result {
 	leak, pv := core.Bubble(t, func() {
 		sim = core.NewSim(tape)
 		sim.Record = rcx.Record
-		sim.MaxSteps = 100*(sc.Lines+nrec) + 40*len(payload) + 20000
+		sim.MaxSteps = 40*(sc.Lines+nrec) + 6*len(payload) + 20000
 		if entry < 2 {
 			rd = core.NewSimReader(sim, tape, payload, cuts, len(payload) > 20000)
 			sc.Reader = rd.ModeName()
